@@ -5,7 +5,7 @@ TH = ["types", "values", "events", "sig"]
 _COVER_ARG = "forall(traces, lambda t: forall(t.arg_types, lambda n: has({at}, n) and {inner}))"
 contract("monkeytype.stubs:shrink_traced_types", props=["C01", "C04", "C14"], theories=TH,
          params={"traces": "Seq[Trace]", "max_typed_dict_size": "Opt[int]"}, result="raw",
-         requires={"types-wf": "forall(traces, lambda t: t is not None and is_dictlike_(t.arg_types) and forall(t.arg_types, lambda n: wf_rw(lookup(t.arg_types, n)) and lookup(t.arg_types, n) is not ELLIPSIS_ and lookup(t.arg_types, n) is not None)"
+         requires={"k-int": "max_typed_dict_size is not None", "types-wf": "forall(traces, lambda t: t is not None and is_dictlike_(t.arg_types) and forall(t.arg_types, lambda n: wf_rw(lookup(t.arg_types, n)) and lookup(t.arg_types, n) is not ELLIPSIS_ and lookup(t.arg_types, n) is not None)"
                                " and implies(t.return_type is not None, wf_rw(t.return_type) and t.return_type is not ELLIPSIS_)"
                                " and implies(t.yield_type is not None, wf_rw(t.yield_type) and t.yield_type is not ELLIPSIS_))"},
          ensures={
@@ -48,7 +48,7 @@ _COVER = ("forall(traces, lambda t: forall(t.arg_types, lambda n: has(L_arg_type
 contract("monkeytype.stubs:get_updated_definition", props=["C01", "C14"], theories=TH,
          params={"func": "Func", "traces": "Seq[Trace]", "max_typed_dict_size": "Opt[int]", "rewriter": "Opt[Rewriter]", "existing_annotation_strategy": "Enum:ExistingAnnotationStrategy"},
          result="FunctionDefinition",
-         requires={"types-wf": "forall(traces, lambda t: t is not None and is_dictlike_(t.arg_types) and forall(t.arg_types, lambda n: wf_rw(lookup(t.arg_types, n)) and lookup(t.arg_types, n) is not ELLIPSIS_ and lookup(t.arg_types, n) is not None)"
+         requires={"k-int": "max_typed_dict_size is not None", "types-wf": "forall(traces, lambda t: t is not None and is_dictlike_(t.arg_types) and forall(t.arg_types, lambda n: wf_rw(lookup(t.arg_types, n)) and lookup(t.arg_types, n) is not ELLIPSIS_ and lookup(t.arg_types, n) is not None)"
                                " and implies(t.return_type is not None, wf_rw(t.return_type) and t.return_type is not ELLIPSIS_)"
                                " and implies(t.yield_type is not None, wf_rw(t.yield_type) and t.yield_type is not ELLIPSIS_))"},
          assumes={"no-class-named-like-a-handler": "forall_v(lambda c: implies(is_class(c) and kind(c) is K_Class, not is_dispatch_name(cname(c))))"},
@@ -72,7 +72,7 @@ _TWF = ("forall({ts}, lambda t: t is not None and is_dictlike_(t.arg_types) and 
 contract("monkeytype.stubs:build_module_stubs_from_traces", props=["C01", "C10", "C14", "C12"], theories=TH,
          params={"traces": "Seq[Trace]", "max_typed_dict_size": "Opt[int]", "existing_annotation_strategy": "Enum:ExistingAnnotationStrategy", "rewriter": "Opt[Rewriter]"},
          result="StubMap", hide="*",
-         requires={"types-wf": _TWF.format(ts="traces")},
+         requires={"k-int": "max_typed_dict_size is not None", "types-wf": _TWF.format(ts="traces")},
          assumes={"no-class-named-like-a-handler": "forall_v(lambda c: implies(is_class(c) and kind(c) is K_Class, not is_dispatch_name(cname(c))))"},
          ensures={
              # every trace is grouped under the function it belongs to, nothing else is; one definition per traced function, built with the
